@@ -237,3 +237,54 @@ def from_description(d) -> Net:
     for l, t, ops in d['gates']:
         gates[l] = (t, tuple(ops))
     return Net(list(d['inputs']), list(d['outputs']), gates)
+
+
+# ---------------------------------------------------------------- slices (C02 / C19 / C04)
+
+def random_slice(net: Net, rng: random.Random, max_roots=2, p_cut=0.35):
+    """Choose a cut-bounded slice of `net`: roots (non-input gates), walk backwards;
+    each encountered gate becomes a cut point (slice input) with probability p_cut
+    or when it is a primary input.  Returns (slice_inputs, slice_gates, roots) with
+    slice_gates in topological (definition) order, or None."""
+    cand = [l for l, (t, ops) in net.gates.items() if t != 'INPUT']
+    if not cand:
+        return None
+    roots = rng.sample(cand, min(len(cand), rng.randint(1, max_roots)))
+    inputs, inner = [], set()
+    st = list(roots)
+    seen = set()
+    while st:
+        g = st.pop()
+        if g in seen:
+            continue
+        seen.add(g)
+        t, ops = net.gates[g]
+        if g not in roots and (t == 'INPUT' or rng.random() < p_cut):
+            if g not in inputs:
+                inputs.append(g)
+            continue
+        if t == 'INPUT':
+            if g not in inputs:
+                inputs.append(g)
+            continue
+        inner.add(g)
+        st.extend(ops)
+    # a gate chosen as cut point may also have been expanded via another path: expanded wins
+    inputs = [i for i in inputs if i not in inner]
+    # roots that ended up being operands of inner gates stay roots (outputs) as well
+    order = [l for l in net.gates if l in inner]
+    return inputs, order, [r for r in roots]
+
+
+def slice_net(net: Net, inputs, gates, outputs) -> Net:
+    g = {i: ('INPUT', ()) for i in inputs}
+    for l in gates:
+        g[l] = net.gates[l]
+    return Net(list(inputs), list(outputs), g)
+
+
+def relabel(net: Net, mapping) -> Net:
+    g = {}
+    for l, (t, ops) in net.gates.items():
+        g[mapping.get(l, l)] = (t, tuple(mapping.get(o, o) for o in ops))
+    return Net([mapping.get(i, i) for i in net.inputs], [mapping.get(o, o) for o in net.outputs], g)
